@@ -47,6 +47,7 @@ Record state2 := {
   dropped : nat;                       (* ghost: warnings dropped (nil channel is not counted) *)
   handler : bool;
   handled : nat;                       (* ghost: objects taken by the custom handler *)
+  failed : nat;                        (* ghost: frames whose reading / processing ended in an error *)
   gen : nat;                           (* connection generation *)
   keyed : bool;                        (* m.encrypted *)
   plain_out : nat;                     (* ghost: unencrypted frames written *)
@@ -55,7 +56,7 @@ Record state2 := {
 }.
 
 Definition init2 (c : config) : state2 := {|
-  base := init; wch := cf_warn c; warned := 0; dropped := 0; handler := cf_handler c; handled := 0;
+  base := init; wch := cf_warn c; warned := 0; dropped := 0; handler := cf_handler c; handled := 0; failed := 0;
   gen := 1; keyed := cf_keyed c; plain_out := 0; keyex := 0; adopt := [] |}.
 
 Inductive label2 :=
@@ -67,14 +68,14 @@ Inductive label2 :=
 
 Definition wb (b : state) (s : state2) : state2 :=
   {| base := b; wch := wch s; warned := warned s; dropped := dropped s; handler := handler s;
-     handled := handled s; gen := gen s; keyed := keyed s; plain_out := plain_out s; keyex := keyex s;
+     handled := handled s; failed := failed s; gen := gen s; keyed := keyed s; plain_out := plain_out s; keyex := keyex s;
      adopt := adopt s |}.
 
 Definition upd_base (f : state -> state) (s : state2) : state2 := wb (f (base s)) s.
 
 Definition set_wch (w : wchan) (dw dd : nat) (s : state2) : state2 :=
   {| base := base s; wch := w; warned := warned s + dw; dropped := dropped s + dd; handler := handler s;
-     handled := handled s; gen := gen s; keyed := keyed s; plain_out := plain_out s; keyex := keyex s;
+     handled := handled s; failed := failed s; gen := gen s; keyed := keyed s; plain_out := plain_out s; keyex := keyex s;
      adopt := adopt s |}.
 
 (* warnError, as repaired: select { case m.Warnings <- err: default: } *)
@@ -88,7 +89,7 @@ Definition warn2 (s : state2) : state2 :=
 Definition handle2 (s : state2) : state2 :=
   if handler s then
     {| base := base s; wch := wch s; warned := warned s; dropped := dropped s; handler := handler s;
-       handled := S (handled s); gen := gen s; keyed := keyed s; plain_out := plain_out s; keyex := keyex s;
+       handled := S (handled s); failed := failed s; gen := gen s; keyed := keyed s; plain_out := plain_out s; keyex := keyex s;
        adopt := adopt s |}
   else warn2 s.
 
@@ -97,11 +98,16 @@ Definition wire2 (b : state) : list wframe := wire_out (elog b).
 (* m.serverSalt = x; m.SaveSession() *)
 Definition adopt2 (x : Z) (c : cause) (s : state2) : state2 :=
   {| base := set_salt x (base s); wch := wch s; warned := warned s; dropped := dropped s; handler := handler s;
-     handled := handled s; gen := gen s; keyed := keyed s; plain_out := plain_out s; keyex := keyex s;
+     handled := handled s; failed := failed s; gen := gen s; keyed := keyed s; plain_out := plain_out s; keyex := keyex s;
      adopt := (x, length (wire2 (base s)), c) :: adopt s |}.
 
 (* an error came back from readMsg: reported, the loop reads the next frame *)
-Definition fail2 (s : state2) : state2 := warn2 (upd_base (set_rx RRead) s).
+Definition bump_failed (s : state2) : state2 :=
+  {| base := base s; wch := wch s; warned := warned s; dropped := dropped s; handler := handler s;
+     handled := handled s; failed := S (failed s); gen := gen s; keyed := keyed s; plain_out := plain_out s;
+     keyex := keyex s; adopt := adopt s |}.
+
+Definition fail2 (s : state2) : state2 := warn2 (bump_failed (upd_base (set_rx RRead) s)).
 
 (* ---- the receive loop --------------------------------------------------------------------- *)
 
@@ -170,13 +176,13 @@ Definition reopen (b : state) : state :=
 
 Definition reconnect2 (s : state2) : state2 :=
   {| base := reopen (base s); wch := wch s; warned := warned s; dropped := dropped s; handler := handler s;
-     handled := handled s; gen := S (gen s); keyed := keyed s; plain_out := plain_out s; keyex := keyex s;
+     handled := handled s; failed := failed s; gen := S (gen s); keyed := keyed s; plain_out := plain_out s; keyex := keyex s;
      adopt := adopt s |}.
 
 (* makeAuthKey: req_pq, req_DH_params, set_client_DH_params in the clear; salt from the nonces; SaveSession *)
 Definition keyex2 (x : Z) (s : state2) : state2 :=
   {| base := set_salt x (base s); wch := wch s; warned := warned s; dropped := dropped s; handler := handler s;
-     handled := handled s; gen := gen s; keyed := true; plain_out := plain_out s + 3; keyex := S (keyex s);
+     handled := handled s; failed := failed s; gen := gen s; keyed := true; plain_out := plain_out s + 3; keyex := S (keyex s);
      adopt := (x, length (wire2 (base s)), CKeyEx) :: adopt s |}.
 
 Definition lift (s : state2) (l : label) : option state2 :=
@@ -187,7 +193,7 @@ Definition step_rx2 (clk : Z) (s : state2) : option state2 :=
   | RRead =>
       match wire_in (base s) with
       | f :: r => if transport_ok f then lift s (LStep ARx clk)
-                  else Some (warn2 (upd_base (set_in r) s))
+                  else Some (warn2 (bump_failed (upd_base (set_in r) s)))
       | [] => lift s (LStep ARx clk)
       end
   | RDispatch f ks => Some (dispatch2 f ks s)
